@@ -136,7 +136,10 @@ struct ApplyMagnitudeImpl<Mag, ApplyAs::INTEGER_DIVIDE, T, is_T_integral> {
     static_assert(is_T_integral == std::is_integral<T>::value,
                   "Mismatched instantiation (should never be done manually)");
 
-    constexpr T operator()(const T &x) { return x / get_value<RealPart<T>>(MagInverseT<Mag>{}); }
+    constexpr T operator()(const T &x) {
+        return divide(
+            x, stdx::bool_constant<representable_in<RealPart<T>>(MagInverseT<Mag>{})>{});
+    }
 
     static constexpr bool would_overflow(const T &) { return false; }
 
@@ -144,6 +147,18 @@ struct ApplyMagnitudeImpl<Mag, ApplyAs::INTEGER_DIVIDE, T, is_T_integral> {
         constexpr auto mag_value_result = get_value_result<T>(MagInverseT<Mag>{});
         return TruncationChecker<T, mag_value_result.outcome == MagRepresentationOutcome::OK>::
             would_truncate(x, mag_value_result.value);
+    }
+
+ private:
+    static constexpr T divide(const T &x, std::true_type) {
+        return x / get_value<RealPart<T>>(MagInverseT<Mag>{});
+    }
+
+    // The divisor does not fit in `T`.  For floating point `T` the magnitude itself may still be
+    // representable (a tiny number whose reciprocal exceeds the largest finite value): multiply by
+    // it instead.  (For integral `T`, this remains a compile time error, as it must.)
+    static constexpr T divide(const T &x, std::false_type) {
+        return x * get_value<RealPart<T>>(Mag{});
     }
 };
 
